@@ -54,7 +54,7 @@ def main():
         return stt.get("impl_drift", 0), stt
     n0, st0 = drift(io)
     ev = st0["impl_trace_clause_evaluations"]
-    if n0 or min(ev.values()) == 0:
+    if n0 or min(ev[k] for k in ("shape", "wf", "file", "bounds", "dirx", "Init", "Rotate", "Head", "Tail")) == 0:
         print("selftest: WalImplTrace on a pristine recording: drift %d, clause evaluations %s" % (n0, ev), st0.get("impl_drift_samples"))
         return 1
     lines = open(io).read().splitlines()
